@@ -64,12 +64,18 @@ func (c *Calcium) newWorkloadSender(ctx context.Context, ID string, resp chan *t
 		resp:    resp,
 	}
 	utils.SentryGo(func() {
+		// the count taken by the dispatcher belongs to this goroutine; every copy takes its own
+		defer wg.Done()
 		var writer *io.PipeWriter
 		curFile := ""
+		failed := false
 		for data := range sender.buffer {
 			if curFile != "" && curFile != data.Dst {
-				log.Warnf(ctx, "[newWorkloadExecutor] receive different files %s, %s", curFile, data.Dst)
-				break
+				// next file for this target: end the current copy, then start a new one
+				log.Debugf(ctx, "[newWorkloadExecutor] next file %s after %s", data.Dst, curFile)
+				writer.Close()
+				curFile = ""
+				failed = false
 			}
 			// ready to send
 			if curFile == "" {
@@ -77,6 +83,7 @@ func (c *Calcium) newWorkloadSender(ctx context.Context, ID string, resp chan *t
 				curFile = data.Dst
 				pr, pw := io.Pipe()
 				writer = pw
+				wg.Add(1)
 				utils.SentryGo(func(ID, name string, size int64, content *io.PipeReader, uid, gid int, mode int64) func() {
 					return func() {
 						defer wg.Done()
@@ -92,16 +99,17 @@ func (c *Calcium) newWorkloadSender(ctx context.Context, ID string, resp chan *t
 					}
 				}(ID, curFile, data.Size, pr, data.UID, data.GID, data.Mode))
 			}
+			if failed {
+				// the copy of this file is over: keep consuming, so that a target that gave up never blocks the dispatcher
+				continue
+			}
 			n, err := writer.Write(data.Chunk)
 			if err != nil || n != len(data.Chunk) {
 				log.Errorf(ctx, err, "[newWorkloadExecutor] send file to engine err, file = %s", curFile)
-				break
+				failed = true
 			}
 		}
 		writer.Close()
-		// keep consuming, so that a target that gave up never blocks the dispatcher
-		for range sender.buffer { //nolint:revive
-		}
 	})
 	return sender
 }
